@@ -96,11 +96,14 @@ enum class format_error {
 namespace _fmt_basics {
 	// width: Minimum width of the output (padded with spaces by default).
 	// precision: Minimum number of digits in the output (always padded with zeros).
+	// The field is laid out as ISO C prescribes for printf: [spaces] [sign] [prefix] [zeros] digits [spaces].
+	// The sign and the prefix ("0x", ...) count towards the width; padding with '0' goes between
+	// them and the digits; a left-justified field is always filled up with spaces.
 	template<Sink S, typename T>
 	void print_digits(S &sink, T number, bool negative, int radix,
 			int width, int precision, char padding, bool left_justify,
 			bool group_thousands, bool always_sign, bool plus_becomes_space,
-			bool use_capitals, locale_options locale_opts) {
+			bool use_capitals, locale_options locale_opts, const char *prefix = "") {
 		const char *digits = use_capitals ? "0123456789ABCDEF" : "0123456789abcdef";
 		char buffer[64];
 
@@ -153,12 +156,15 @@ namespace _fmt_basics {
 		};
 
 		// print the number in reverse order and determine #digits.
-		do {
-			FRG_ASSERT(k < 64); // TODO: variable number of digits
-			buffer[k++] = digits[number % radix];
-			number /= radix;
-			step_grouping();
-		} while(number);
+		// A zero value with a precision of zero has no digits at all (sign and padding remain).
+		if(number || precision) {
+			do {
+				FRG_ASSERT(k < 64); // TODO: variable number of digits
+				buffer[k++] = digits[number % radix];
+				number /= radix;
+				step_grouping();
+			} while(number);
+		}
 
 		if (k < precision)
 			for (int i = 0; i < precision - k; i++)
@@ -166,18 +172,29 @@ namespace _fmt_basics {
 
 		// The precision may be as large as INT_MAX and the separators come on top of it:
 		// the length of the field does not fit into an int.
-		int64_t final_width = static_cast<int64_t>(max(k, precision)) + static_cast<int64_t>(extra);
+		char sign = 0;
+		if(negative)
+			sign = '-';
+		else if(always_sign)
+			sign = '+';
+		else if(plus_becomes_space)
+			sign = ' ';
 
-		if(!left_justify && final_width < width)
+		int64_t final_width = static_cast<int64_t>(max(k, precision)) + static_cast<int64_t>(extra)
+				+ (sign ? 1 : 0) + static_cast<int64_t>(generic_strlen(prefix));
+		const bool zero_fill = padding == '0';
+
+		if(!left_justify && !zero_fill && final_width < width)
 			for(int64_t i = 0; i < width - final_width; i++)
 				sink.append(padding);
 
-		if(negative)
-			sink.append('-');
-		else if(always_sign)
-			sink.append('+');
-		else if(plus_becomes_space)
-			sink.append(' ');
+		if(sign)
+			sink.append(sign);
+		sink.append(prefix);
+
+		if(!left_justify && zero_fill && final_width < width)
+			for(int64_t i = 0; i < width - final_width; i++)
+				sink.append('0');
 
 		if(k < precision) {
 			for(int i = 0; i < precision - k; i++) {
@@ -193,7 +210,7 @@ namespace _fmt_basics {
 
 		if(left_justify && final_width < width)
 			for(int64_t i = final_width; i < width; i++)
-				sink.append(padding);
+				sink.append(zero_fill ? ' ' : padding);
 	}
 
 	// Signed integer formatting. We cannot print -x as that might not fit into the signed type.
@@ -204,18 +221,18 @@ namespace _fmt_basics {
 			int precision = 1, char padding = ' ', bool left_justify = false,
 			bool group_thousands = false, bool always_sign = false,
 			bool plus_becomes_space = false, bool use_capitals = false,
-			locale_options locale_opts = {}) {
+			locale_options locale_opts = {}, const char *prefix = "") {
 		if(number < 0) {
 			// Convert back to the unsigned type: for T narrower than int the arithmetic is done in (signed) int.
 			using UT = typename std::make_unsigned_t<T>;
 			auto absv = static_cast<UT>(~static_cast<UT>(number) + 1);
 			print_digits(sink, absv, true, radix, width, precision, padding,
 					left_justify, group_thousands, always_sign, plus_becomes_space, use_capitals,
-					locale_opts);
+					locale_opts, prefix);
 		}else{
 			print_digits(sink, number, false, radix, width, precision, padding,
 					left_justify, group_thousands, always_sign, plus_becomes_space, use_capitals,
-					locale_opts);
+					locale_opts, prefix);
 		}
 	}
 
